@@ -596,6 +596,12 @@ func runL2(c *fw.Ctx, cf l2cfg) {
 	c.Sample(map[string]any{"level": "L2", "config": cf.String(), "acknowledged_commits": s.acks.Load(), "events": st})
 }
 
+// one L2 case: the network run, then the handshake scenario on fresh databases
+func runL2Case(c *fw.Ctx, cf l2cfg) {
+	runL2(c, cf)
+	runHandshake(c, cf)
+}
+
 func (s *l2run) drain() bool {
 	pst, _ := s.pri.CurrentState()
 	for _, r := range s.reps {
@@ -656,7 +662,7 @@ func init() {
 				os.WriteFile("/var/tmp/c07-stacks.txt", buf[:runtime.Stack(buf, true)], 0o644)
 			}()
 		}
-		runL2(c, cf)
+		runL2Case(c, cf)
 	})
 }
 
